@@ -286,6 +286,8 @@ func (r *coreRun) opt(o coreOpt) slog.Opt {
 		return slog.WithAttrs1(r.sharedAttrs(o.A, o.B))
 	case "SetKV":
 		return slog.With(attrName(o.A), o.B)
+	case "AttrsN":
+		return slog.WithAttrs(r.manyAttrs(o.A, o.B)...)
 	case "Attrs0":
 		switch o.A % 3 {
 		case 0:
